@@ -163,6 +163,23 @@ def gen_shared_route(rng):
 SUB_SHAPES = [[], ["/r"], ["/r/a"], ["/r/a", "/r/b"], ["/s"], ["=/e"], ["~^/x"], ["=/f"], ["/r", "/s"], ["/r/a", "=/e"]]
 
 
+def gen_double_reference(rng):
+    """One VirtualServer references the SAME VirtualServerRoute from two routes — by name and by namespace/name, under nested
+    paths — and the route fits both, the first only, the second only, or neither. It is attached at most once (S-C07-i)."""
+    refs = rng.shuffle([("/r", "r1"), ("/r/a", "d/r1")])
+    if rng.chance(1, 3):
+        refs.append(("/s", rng.choice(["_", "r2", "r1"])))
+    subs = rng.choice(["/r/a/x", "/r/b", "/r/a/x+/r/b", "", "/r/a/x+/r/a/y", "/t"])
+    ops = ["vs|d|v|u001|1|1|1|1|a.ex|%s|-|-" % "&".join("%s>%s" % x for x in refs),
+           "vsr|d|r1|u002|2|1|1|1|a.ex|%s" % subs]
+    if rng.chance(1, 2):
+        ops.append("vsr|d|r2|u003|3|1|1|1|a.ex|/s/a")
+    ops = rng.shuffle(ops)
+    if rng.chance(1, 2):
+        ops.append("vsr|d|r1|u002|2|2|1|1|a.ex|%s" % rng.choice(["/r/a/x", "/r/b", ""]))
+    return arbgen.line(True, False, ops)
+
+
 def gen_route_shapes():
     """Exhaustive: one VirtualServer route of each path kind (prefix, exact, regex) delegating to one VirtualServerRoute with each
     shape of subroute list (none, matching, not matching, several), in both arrival orders, then the route edited to every other
@@ -191,6 +208,10 @@ def gen(rng, tier):
         cases.append(dict(line=gen_shared_route(rng), tags=["shared-route"]))
     for _ in range(150 if tier == "quick" else 2000):
         cases.append(dict(line=gen_minion_contention(rng), tags=["minion-contention"]))
+    for _ in range(100 if tier == "quick" else 1000):
+        cases.append(dict(line=arbgen.gen_replaced_attached(rng), tags=["replaced-attached-object"]))
+    for _ in range(80 if tier == "quick" else 800):
+        cases.append(dict(line=gen_double_reference(rng), tags=["double-reference"]))
     for _ in range(400 if tier == "quick" else 4000):
         cases.append(dict(line=gen_composition(rng, 12 if tier == "quick" else 24), tags=["composition"]))
     n = 150 if tier == "quick" else 2000
